@@ -19,6 +19,8 @@ enum Fault {
     Resize(usize, i64),
     /// all chunk ids shifted by +1 (id 0 missing although the count is right)
     ShiftIds,
+    /// two faults at once: chunk i dropped and chunk j duplicated (the count is right again)
+    DropDup(usize, usize),
 }
 
 struct Scenario {
@@ -98,6 +100,10 @@ fn build_chunks(payload: &[u8], sizes: &[usize], fault: Fault) -> Vec<Vec<u8>> {
             let c = out[j].clone();
             out.push(c);
         }
+        Fault::DropDup(i, j) => {
+            let c = out[j].clone();
+            out[i] = c;
+        }
         _ => {}
     }
     out
@@ -156,12 +162,19 @@ pub fn run(args: &Args) -> i32 {
                 if i + 1 < n {
                     faults.extend([Fault::Resize(i, 1), Fault::Resize(i, -1)]);
                 }
+                if n <= 8 {
+                    for j in 0..n {
+                        if j != i {
+                            faults.push(Fault::DropDup(i, j));
+                        }
+                    }
+                }
             }
             if pi == 4 {
                 // the large packet: keep one fault of each kind per position class
                 faults.retain(|f| match f {
                     Fault::None | Fault::ShiftIds => true,
-                    Fault::Drop(i) | Fault::Dup(i) | Fault::ForeignBoard(i) | Fault::ForeignChip(i) | Fault::ToggleEom(i) | Fault::Resize(i, _) => *i == 0 || *i + 1 >= n.saturating_sub(1),
+                    Fault::Drop(i) | Fault::Dup(i) | Fault::ForeignBoard(i) | Fault::ForeignChip(i) | Fault::ToggleEom(i) | Fault::Resize(i, _) | Fault::DropDup(i, _) => *i == 0 || *i + 1 >= n.saturating_sub(1),
                 });
             }
             for f in faults {
@@ -197,7 +210,7 @@ pub fn run(args: &Args) -> i32 {
     rep.cov("max_chunks_with_all_permutations", json!(max_all));
 
     rep.run("orders-x-faults", tot, 60, false,
-        "5 payloads (0/1/2 channels, undecodable, largest legal 81268-byte packet) x chunk size (every 1..=L for the small ones; 5 sizes for the large) x fault {none, ids shifted, drop i, duplicate i, foreign board i, foreign chip i, toggle EOM i, resize non-final i by +-1} x arrival orders (all m! for m <= bound, else identity/reversal/rotations/adjacent transpositions/move-to-front)",
+        "5 payloads (0/1/2 channels, undecodable, largest legal 81268-byte packet) x chunk size (every 1..=L for the small ones; 5 sizes for the large) x fault {none, ids shifted, drop i, duplicate i, foreign board i, foreign chip i, toggle EOM i, resize non-final i by +-1, drop i and duplicate j (<= 8 chunks)} x arrival orders (all m! for m <= bound, else identity/reversal/rotations/adjacent transpositions/move-to-front)",
         |idx, loc| {
             let si = match prefix.binary_search(&idx) {
                 Ok(i) => i,
@@ -278,5 +291,6 @@ fn fault_kind(f: Fault) -> &'static str {
         Fault::ToggleEom(_) => "toggle-eom",
         Fault::Resize(..) => "resize",
         Fault::ShiftIds => "shift-ids",
+        Fault::DropDup(..) => "drop-and-duplicate",
     }
 }
